@@ -273,11 +273,16 @@ def ArcGeom.findSegDown (g : ArcGeom) (delta : Rat) : Nat → Int → Int
       | none => s
     else s
 
+/-- repaired code (fix C12-7) in `ProjDataInfoCylindricalArcCorr::get_bin`: an angle a rounding error below the azimuthal offset is
+    mapped by `to_0_2pi` to just under 2π and rounds to `2·num_views`, which is view 0 (not `num_views`, which "subtract
+    `num_views` when `view > max_view`" would give) -/
+def wrapView (V v : Int) : Int := if v = 2 * V then 0 else v
+
 /-- `ProjDataInfoCylindricalArcCorr::get_bin(lor, delta_time)` (ProjDataInfoCylindricalArcCorr.cxx:102-223); `none` = bin
     value -1.  Repaired code (fix C12-3): the TOF bin is `get_tof_bin(delta_time)`, its sign reversed when the direction of
-    the LOR is (`lor_coords.is_swapped() != swap_direction`). -/
-def ArcGeom.getBin (g : ArcGeom) (l : LorS) (deltaTime : Rat) : Option Bin :=
-  let view0 := roundRat (to02 (l.phi - g.offset) / (1 / (g.V : Rat)))
+    the LOR is (`lor_coords.is_swapped() != swap_direction`).  `wrapFix = false` is the code before fix C12-7 (`wrapView`). -/
+def ArcGeom.getBinCore (wrapFix : Bool) (g : ArcGeom) (l : LorS) (deltaTime : Rat) : Option Bin :=
+  let view0 := (if wrapFix then wrapView g.V else id) (roundRat (to02 (l.phi - g.offset) / (1 / (g.V : Rat))))
   let swap := view0 > g.V - 1
   let view := if swap then view0 - g.V else view0
   let tang0 := roundRat (l.s / g.binSize)
@@ -298,6 +303,9 @@ def ArcGeom.getBin (g : ArcGeom) (l : LorS) (deltaTime : Rat) : Option Bin :=
           if ax < 0 ∨ ax > sg.numAx - 1 then none
           else some ⟨seg, view, ax, tang, (if (l.swapped != decide swap) then -1 else 1) * g.tofBin deltaTime⟩
     | _, _ => none
+
+/-- `get_bin` of the repaired code -/
+def ArcGeom.getBin (g : ArcGeom) (l : LorS) (deltaTime : Rat) : Option Bin := g.getBinCore true l deltaTime
 
 /-- `ArcCorrection::set_up`: boundaries of the arc-corrected boxes (src/buildblock/ArcCorrection.cxx:122-134):
     `_arccorr_coords[tp] = (tp - .5) * sampling` for `tp = min … max + 1` (repaired code, fix C12-5: the last entry, written
@@ -480,6 +488,135 @@ def CylGeom.detPairs (g : CylGeom) (b : Bin) : List ((Int × Int) × (Int × Int
     | some off =>
       ((List.range g.mash.toNat).map fun (k : Nat) => b.view * g.mash + (k : Int)).flatMap fun uv =>
         (sg.ringPairsOf g.R off b.ax).map fun rp => (viewTangToDet g.N uv b.tang, rp)
+
+/-! ## LOR representations and the conversions between them (src/include/stir/LORCoordinates.inl), angles in units of π
+
+`LORInCylinderCoordinates` = two points `(z, ψ)` on the cylinder, directed from the first to the second;
+`LORInAxialAndNoArcCorrSinogramCoordinates` = `(z1, z2, φ, β, swapped)` with `0 ≤ φ < 1`, `-1/2 ≤ β < 1/2` (units of π): the points
+`(z1, φ + β)`, `(z2, φ - β + 1)`, in this order unless `swapped`.  (`LORInAxialAndSinogramCoordinates` is the same with
+`s = R sin β` in place of `β`; `LORAs2Points` are the Cartesian points `R (sin ψ, -cos ψ)`, and
+`find_LOR_intersections_with_cylinder` gives back `(z, ψ)` of the two points in the same order.) -/
+
+structure LorCyl where
+  z1 : Rat
+  psi1 : Rat
+  z2 : Rat
+  psi2 : Rat
+  deriving Repr, DecidableEq
+
+structure LorNA where
+  z1 : Rat
+  z2 : Rat
+  phi : Rat
+  beta : Rat
+  swapped : Bool
+  deriving Repr, DecidableEq
+
+/-- constructor from explicit arguments (LORCoordinates.inl:106-122): brings `phi` into [0,π) -/
+def LorNA.mk' (z1 z2 phi beta : Rat) (swapped : Bool) : LorNA :=
+  let p := to02 phi
+  if p ≥ 1 then ⟨z2, z1, p - 1, -beta, !swapped⟩ else ⟨z1, z2, p, beta, swapped⟩
+
+/-- `LORInCylinderCoordinates(const LORInAxialAndNoArcCorrSinogramCoordinates&)` (LORCoordinates.inl:128-139; the constructor from
+    `LORInAxialAndSinogramCoordinates`, :141-152, is the same with `beta() = asin(s/R)`) -/
+def LorNA.toCyl (l : LorNA) : LorCyl :=
+  let p1 := to02 (l.phi + l.beta)
+  let p2 := to02 (l.phi - l.beta + 1)
+  if l.swapped then ⟨l.z2, p2, l.z1, p1⟩ else ⟨l.z1, p1, l.z2, p2⟩
+
+/-- `get_sino_coords` (LORCoordinates.inl:154-220), used by the constructors of both sinogram forms from cylinder coordinates.
+    `fixed = true`: repaired code (fix C12-6): in the branch `phi < π`, `beta < -π/2` the two points are exchanged, hence
+    `swapped = true` (the code had `false` there, and `true` in the branch `phi ≥ π`, `beta < -π/2` that keeps the order). -/
+def LorCyl.toNA (fixed : Bool) (c : LorCyl) : LorNA :=
+  let b0 := to02 ((c.psi1 - c.psi2 + 1) / 2)
+  let b := if b0 > 1 then b0 - 2 else b0
+  let p := to02 ((c.psi1 + c.psi2 - 1) / 2)
+  if p < 1 then
+    if b ≥ 1/2 then ⟨c.z2, c.z1, p, 1 - b, true⟩
+    else if b < -(1/2) then ⟨c.z2, c.z1, p, -1 - b, fixed⟩
+    else ⟨c.z1, c.z2, p, b, false⟩
+  else
+    if b ≥ 1/2 then ⟨c.z1, c.z2, p - 1, b - 1, false⟩
+    else if b < -(1/2) then ⟨c.z1, c.z2, p - 1, b + 1, !fixed⟩
+    else ⟨c.z2, c.z1, p - 1, -b, true⟩
+
+/-- the same line in the opposite direction -/
+def LorCyl.reverse (c : LorCyl) : LorCyl := ⟨c.z2, c.psi2, c.z1, c.psi1⟩
+def LorNA.reverse (l : LorNA) : LorNA := { l with swapped := !l.swapped }
+
+/-- `ProjDataInfoCylindrical::get_LOR` (ProjDataInfoCylindrical.cxx:510) for non-arc-corrected data, in detector units: `tilt` =
+    intrinsic tilt (units of π), `φ = (2·mash·v + mash - 1)/N + tilt`, `β = tp/N`, `z` in units of the ring spacing relative to the
+    scanner centre (`max_a·tan θ = Δ·spacing/2` exactly) -/
+def CylGeom.lorOf (g : CylGeom) (tilt : Rat) (b : Bin) : Option LorNA :=
+  (segAt g.minSeg g.segs b.seg).map fun sg =>
+    let m := sg.getM 1 b.ax
+    LorNA.mk' (m - sg.avgRD / 2) (m + sg.avgRD / 2) (((2 * g.mash * b.view + g.mash - 1 : Int) : Rat) / (g.N : Rat) + tilt)
+      ((b.tang : Rat) / (g.N : Rat)) false
+
+/-- `ProjDataInfoCylindricalNoArcCorr::get_bin` (ProjDataInfoCylindricalNoArcCorr.cxx:554-591) on a LOR in cylinder coordinates
+    (every LOR type is first converted to these): nearest detectors `round((ψ - tilt)/(2π/N))`, nearest rings
+    `round(z/spacing + (R-1)/2)`; every admissible rounding of a tie is listed; `t` = `get_tof_bin(delta_time)`.
+    (`LORInCylinderCoordinates::is_swapped()` is always `false`.) -/
+def CylGeom.getBinCyl (g : CylGeom) (tilt : Rat) (c : LorCyl) (t : Int) : List RtResult :=
+  let x1 := (c.psi1 - tilt) * (g.N : Rat) / 2
+  let x2 := (c.psi2 - tilt) * (g.N : Rat) / 2
+  let y1 := c.z1 + ((g.R - 1 : Int) : Rat) / 2
+  let y2 := c.z2 + ((g.R - 1 : Int) : Rat) / 2
+  (roundCandidates x1).flatMap fun e1 => (roundCandidates x2).flatMap fun e2 =>
+  (roundCandidates y1).flatMap fun r1 => (roundCandidates y2).map fun r2 =>
+    let d1 := moduloInt e1 g.N
+    let d2 := moduloInt e2 g.N
+    if r1 < 0 ∨ r1 ≥ g.R ∨ r2 < 0 ∨ r2 ≥ g.R then RtResult.miss
+    else if d1 = d2 then RtResult.miss
+    else match g.binForDetPair d1 r1 d2 r2 t with
+      | none => RtResult.miss
+      | some nb => if nb.tang < g.minTang ∨ nb.tang > g.maxTang then RtResult.miss else RtResult.bin nb
+
+/-- the LOR of a bin as the harness hands it to `get_bin`: `kind` names the LOR type and direction -/
+inductive LorKind where
+  | na | cyl | sino | pts | str | rev | cylrev | narev | sinorev
+  deriving Repr, DecidableEq
+
+def LorKind.ofString? : String → Option LorKind
+  | "na" => some .na | "cyl" => some .cyl | "sino" => some .sino | "pts" => some .pts | "str" => some .str
+  | "rev" => some .rev | "cylrev" => some .cylrev | "narev" => some .narev | "sinorev" => some .sinorev
+  | _ => none
+
+/-- is the direction of the line reversed (with respect to the bin's LOR) in this kind -/
+def LorKind.reversed : LorKind → Bool
+  | .rev | .cylrev | .narev | .sinorev => true
+  | _ => false
+
+/-- does the arc-corrected `get_bin` reach its sinogram coordinates through cylinder coordinates (`get_sino_coords`) for this kind -/
+def LorKind.viaCylinder : LorKind → Bool
+  | .cyl | .pts | .str | .rev | .cylrev => true
+  | _ => false
+
+/-- cylinder coordinates of the LOR `l` handed over as `kind` (points on the cylinder, moved along the line or not, give the
+    same cylinder coordinates in exact arithmetic) -/
+def LorNA.cylOfKind (l : LorNA) (k : LorKind) : LorCyl :=
+  match k with
+  | .narev | .sinorev => l.reverse.toCyl
+  | .rev | .cylrev => l.toCyl.reverse
+  | _ => l.toCyl
+
+/-- `get_bin ∘ (representation change) ∘ get_LOR` for non-arc-corrected data -/
+def CylGeom.roundTripVia (g : CylGeom) (tilt : Rat) (k : LorKind) (b : Bin) : List RtResult :=
+  match g.lorOf tilt b with
+  | none => []
+  | some l =>
+    let t := match g.tof with
+      | none => 0
+      | some T => T.getTofBin (T.k b.tof / cHalf)
+    g.getBinCyl tilt (l.cylOfKind k) t
+
+/-- `find_bin_given_cartesian_coordinates_of_detection` (ProjDataInfoCylindricalNoArcCorr.cxx:560) applied to the coordinates of the
+    detector pair `(d1,r1)-(d2,r2)` (or to points moved outwards along the line through them): in exact arithmetic
+    `find_scanner_coordinates_given_cartesian_coordinates` finds the two detectors again, in this or in the opposite order -/
+def CylGeom.findBin (g : CylGeom) (d1 r1 d2 r2 : Int) : RtResult :=
+  match g.binForDetPair d1 r1 d2 r2 0 with
+  | none => .miss
+  | some nb => if nb.tang < g.minTang ∨ nb.tang > g.maxTang then .miss else .bin nb
 
 /-! ## float part (binary64; used by the driver, no theorems) -/
 
